@@ -356,11 +356,22 @@ def ite_heavy(draw, cfg, n=None, depth=3):
         n = draw(st.sampled_from(cfg["widths"]))
     conds = [draw(gen.bool_tree(1, cfg)) for _ in range(2)]
     conds.append(("not", conds[0]))
+    # conditions that compare the SAME operands with other comparison operators (x < k next to x > k, x <= k, x == k ...):
+    # utilities that merge Ifs with "the negated condition" must not take a merely related one for it
+    for c in list(conds[:2]):
+        if c[0] in ir.BV_CMP:
+            for _ in range(2):
+                conds.append((draw(st.sampled_from(ir.BV_CMP)), c[1], c[2]))
 
     def rec(d):
         if d <= 0:
             return draw(st.one_of(gen.bv_vars(n, cfg.get("nvars", 2)), gen.consts(n)))
-        k = draw(st.integers(0, 9))
+        k = draw(st.integers(0, 11))
+        if k >= 10 and len(conds) > 3:
+            # sibling Ifs under one operator with related conditions
+            c1 = draw(st.sampled_from(conds))
+            c2 = draw(st.sampled_from(conds[3:]))
+            return (draw(st.sampled_from(("bvadd", "bvsub", "bvand", "bvxor", "bvor"))), ("ite", c1, rec(d - 1), rec(d - 1)), ("ite", c2, rec(d - 1), rec(d - 1)))
         if k < 5:
             return ("ite", draw(st.sampled_from(conds)), rec(d - 1), rec(d - 1))
         if k < 8:
